@@ -78,6 +78,8 @@ def _res(s, ns, defs):
             raise RefSchemaError(f"redefinition of {full}")
         aliases = list(s.get("aliases", []))
         if t == "enum":
+            if len(set(map(str, s["symbols"]))) != len(s["symbols"]):
+                raise RefSchemaError(f"duplicate symbols in {full}")
             node = {"k": "enum", "name": full, "symbols": list(s["symbols"]), "aliases": aliases}
             if "default" in s:
                 node["default"] = s["default"]
@@ -89,6 +91,9 @@ def _res(s, ns, defs):
             return node
         node = {"k": "record", "name": full, "fields": [], "aliases": aliases}
         defs[full] = node
+        fnames = [f["name"] for f in s.get("fields", [])]
+        if len(set(fnames)) != len(fnames):
+            raise RefSchemaError(f"duplicate field names in {full}")
         for f in s.get("fields", []):
             fn = {"name": f["name"], "type": _res(f["type"], space, defs), "aliases": list(f.get("aliases", []))}
             if "default" in f:
